@@ -17,6 +17,7 @@ TSetAnchor == IsEvent("setAnchor") /\ SetAnchor(Tr[l].la, Tr[l].lo, Tr[l].h) /\ 
 TResetCall == IsEvent("reset") /\ Reset /\ Tr[l].anch = anchored'
 \* toENU(geodetic): self-anchoring; points on the anchor's vertical map to (0, 0, height difference)
 TToEnuGeo == /\ IsEvent("toEnuGeo") /\ ToEnuGeo(Tr[l].la, Tr[l].lo, Tr[l].h) /\ Tr[l].anch = anchored' /\ anchored'
+             /\ Tr[l].h > -100000 /\ Tr[l].h < 100000                      \* the anchor's height is a finite number of metres
              /\ OnVertical(Tr[l].la, Tr[l].lo) => Near(Tr[l].mm, <<0, 0, 1000 * (Tr[l].h - hgt')>>, 1)
 \* toECEF(p): displacement from the frame origin = East x + North y + Up z   (logged times Den)
 TToEcef == /\ IsEvent("toEcef") /\ anchored /\ UNCHANGED envars
